@@ -227,4 +227,11 @@ def r20_6(ctx: Ctx) -> RuleResult:
     return r4_2(ctx, "R20.6")
 
 
-RULES = [r20_1, r20_2, r20_3, r20_4, r20_5, r20_6]
+def r20_7(ctx: Ctx) -> RuleResult:
+    """A match's parts address the matched node: an int for an array element (its index from the start), a str for an object member (= R1.14)."""
+    from .c01 import r1_14
+
+    return r1_14(ctx, "R20.7")
+
+
+RULES = [r20_1, r20_2, r20_3, r20_4, r20_5, r20_6, r20_7]
